@@ -10,9 +10,17 @@ from vf import slicer
 _tree = slicer.parse(D.__file__)
 _fn = slicer.find(_tree, ast.FunctionDef, lambda n: n.name == "parse_dump_xml")
 _loop = slicer.find(_fn, ast.For, lambda n: "iterparse" in ast.unparse(n.iter))
-# one page = one execution of the loop body (`continue` needs a loop around it)
-_wrapper = ast.For(target=ast.Name(id="_once", ctx=ast.Store()), iter=ast.parse("(0,)").body[0].value, body=_loop.body, orelse=[], lineno=_loop.lineno, col_offset=0)
-STEP, STEP_SRC = slicer.make_function("dump_step", "wtp, page_element, namespace_ids", "page_nums = 0", ast.fix_missing_locations(_wrapper), "return None", dict(vars(D)), f"dumpparser.py:{_loop.lineno}")
+# the real loop with everything that precedes it inside the `with` block (locals initialised before the loop are part of
+# the slice, so a value carried from one page to the next is visible); only the iterator expression is replaced
+_with = slicer.find(_fn, ast.With, lambda n: True)
+_loop.iter = ast.Name(id="_elements", ctx=ast.Load())
+_body = ast.If(test=ast.Constant(value=True), body=_with.body, orelse=[], lineno=_with.lineno, col_offset=0)
+LOOP, LOOP_SRC = slicer.make_function("dump_loop", "wtp, _elements, namespace_ids", "pass", ast.fix_missing_locations(_body), "return None", dict(vars(D)), f"dumpparser.py:{_loop.lineno}")
+
+
+def STEP(wtp, page_element, namespace_ids):
+    return LOOP(wtp, [(None, page_element)], namespace_ids)
+
 
 MODELS = ["wikitext", "Scribunto", "json", "css", "javascript", "sanitized-css", "text", "", "GadgetDefinition"]
 KEPT = {"wikitext", "Scribunto", "json"}
@@ -74,6 +82,30 @@ def filter_ok(title, ns, selected, mi, text, has_redirect, target) -> bool:
     return ingest(title, ns, selected, mi, text, has_redirect, target) == expected(title, ns, selected, mi, text, has_redirect, target)
 
 
+def two_pages_ok(t1: str, sel1: bool, mi1: int, text1: str, red1: bool, tgt1: str, t2: str, sel2: bool, mi2: int, text2: str, red2: bool, tgt2: str) -> bool:
+    """two consecutive page elements through the real loop: what is stored for the second page depends on the second page only"""
+    st = Store()
+    e1 = Element(t1, 0 if sel1 else 1, MODELS[mi1], text1, tgt1 if red1 else None)
+    e2 = Element(t2, 0 if sel2 else 1, MODELS[mi2], text2, tgt2 if red2 else None)
+    LOOP(st, [(None, e1), (None, e2)], {0})
+    return st.added == expected(t1, 0 if sel1 else 1, sel1, mi1, text1, red1, tgt1) + expected(t2, 0 if sel2 else 1, sel2, mi2, text2, red2, tgt2)
+
+
+def replay_two_pages(t1, sel1, mi1, text1, red1, tgt1, t2, sel2, mi2, text2, red2, tgt2):
+    import tempfile
+
+    text1, tgt1, text2, tgt2 = xml_safe(text1), xml_safe(tgt1), xml_safe(text2), xml_safe(tgt2)
+    pages = [(t1, 0 if sel1 else 1, MODELS[mi1], text1, tgt1 if red1 else None), (t2, 0 if sel2 else 1, MODELS[mi2], text2, tgt2 if red2 else None)]
+    with tempfile.TemporaryDirectory() as d:
+        p = os.path.join(d, "t-pages-articles.xml.bz2")
+        make_dump(pages, p)
+        w = Wtp(quiet=True, quiet_output=True)
+        D.parse_dump_xml(w, p, {0})
+        got = sorted((pg.title, pg.namespace_id, pg.body, pg.redirect_to, pg.model) for pg in w.get_all_pages())
+    want = sorted(expected(t1, pages[0][1], sel1, mi1, text1, red1, tgt1) + expected(t2, pages[1][1], sel2, mi2, text2, red2, tgt2))
+    return (f"parse_dump_xml of a dump with two pages {pages}, namespace 0 selected", got != want, f"stored {got}, expected {want}")
+
+
 def pinned(s: str, at: int, lit: str) -> bool:
     for i in range(len(lit)):
         if s[at + i] != lit[i]:
@@ -113,6 +145,14 @@ PREFIXES = {0: "", 10: "Template:", 828: "Module:", 14: "Category:", 4: "Wiktion
 
 
 # ---------------------------------------------------------------- replay through a real generated dump
+def xml_safe(v):
+    """characters XML 1.0 cannot carry are replaced by a letter in the replay document (the solver's choice of character is
+    irrelevant to the page filter; the replayed pages are what the signature shows)"""
+    if v is None:
+        return None
+    return "".join(c if (c in "\t\n" or " " <= c <= "\ud7ff" or "\ue000" <= c <= "\ufffd") else "Z" for c in v)
+
+
 def make_dump(pages, path):
     import bz2
     from xml.sax.saxutils import escape
@@ -131,6 +171,7 @@ def make_dump(pages, path):
 def replay_dump(title, ns, selected, mi, text, has_redirect, target):
     import tempfile
 
+    title, text, target = xml_safe(title), xml_safe(text), xml_safe(target)
     with tempfile.TemporaryDirectory() as d:
         p = os.path.join(d, "t-pages-articles.xml.bz2")
         make_dump([(title, ns, MODELS[mi], text, target if has_redirect else None)], p)
